@@ -155,10 +155,23 @@ def random_arch(rng: random.Random, *, dim: int, max_nodes: int, widths=(2, 3, 4
         if kind == "conv" and nf:
             k = rng.choice(kernels) if dim == 1 else rng.choice([1, 3])
             s = rng.choice([1, 1, 1, 2]) if strided else 1
-            nodes.append({"op": "conv", "ins": [pick(nf)], "out": rng.choice(widths), "k": k,
-                          "d": rng.choice([1, 1, 2, 3]) if dim == 1 else 1, "s": s, "bias": rng.random() < 0.7,
-                          "bn": rng.random() < 0.4, "causal": dim == 1,
-                          "excl": allow_excl and rng.random() < 0.15})
+            p_in = pick(nf)
+            d_ = rng.choice([1, 1, 2, 3]) if dim == 1 else rng.choice([1, 1, 2])
+            nd_ = {"op": "conv", "ins": [p_in], "out": rng.choice(widths), "k": k, "d": d_, "s": s,
+                   "bias": rng.random() < 0.7, "bn": rng.random() < 0.4, "causal": dim == 1,
+                   "excl": allow_excl and rng.random() < 0.15}
+            r_ = rng.random()
+            if r_ < 0.12 and sh[p_in]["sp"] - d_ * (k - 1) >= 1 and (dim == 1 or sh[p_in]["spw"] - d_ * (k - 1) >= 1):
+                nd_.update({"valid": True, "causal": False})            # un-padded convolution
+            elif r_ < 0.30 and s == 1 and k > 1 and dim == 1:
+                nd_.update({"causal": False, "pm": rng.choice(["zeros", "reflect", "replicate", "circular"])})   # 'same' padding
+            elif r_ < 0.30 and k > 1 and dim == 2:
+                nd_["pm"] = rng.choice(["zeros", "reflect", "replicate", "circular"])
+            if nd_.get("pm", "zeros") in ("reflect",) and (sh[p_in]["sp"] <= d_ * (k // 2) or (dim == 2 and sh[p_in]["spw"] <= d_ * (k // 2))):
+                nd_["pm"] = "replicate"          # reflect padding needs pad < size
+            if nd_.get("pm", "zeros") == "circular" and (sh[p_in]["sp"] < d_ * (k // 2) or (dim == 2 and sh[p_in]["spw"] < d_ * (k // 2))):
+                nd_["pm"] = "zeros"
+            nodes.append(nd_)
         elif kind == "dw" and nf:
             p = pick([t for t in nf if t != 0] or nf)
             nodes.append({"op": "conv", "ins": [p], "dw": True, "k": rng.choice([1, 3]) if dim == 2 else rng.choice(kernels),
